@@ -4,6 +4,7 @@ import (
 	"errors"
 	"io"
 	"sync"
+	"time"
 )
 
 // queue: unbounded byte queue with close; the reading side of a link.
@@ -54,12 +55,12 @@ func (q *queue) close() {
 // Frames are numbered from 0 after the 32-byte ephemeral key; frames 0 and 1
 // carry the auth message (length, body), data frames start at 2.
 type tamper struct {
-	Kind   string `json:"kind"`   // flip | swap | replay | drop | trunc-mid | trunc-boundary | eph-flip
+	Kind   string `json:"kind"`   // flip | swap | replay | drop | trunc-mid | trunc-boundary | eph-flip | replay-far | reflect
 	Frame  int    `json:"frame"`  // k
 	Offset int    `json:"offset"` // byte offset inside the sealed frame (flip), bytes kept (trunc-mid), byte of the eph key (eph-flip)
 	Bit    uint   `json:"bit"`
 	Class  string `json:"class"` // tag | length | data | padding (flip)
-	Dist   int    `json:"dist"`  // replay-far: the recorded frame k is put in the place of frame k+dist
+	Dist   int    `json:"dist"`  // replay-far: the recorded frame k is put in the place of frame k+dist; reflect: frame k is replaced by the READER's own frame k+dist (recorded in the other direction)
 }
 
 // relayDir is one direction of the relay: the sender's Write lands here, the
@@ -78,6 +79,8 @@ type relayDir struct {
 	closed  bool
 	applied bool // the plan's action has been executed
 	frames  int  // frames forwarded (statistics)
+	peer    *relayDir // the opposite direction (reflect)
+	seen    [][]byte  // every frame that arrived in this direction (reflect reads the peer's)
 }
 
 var errLinkClosed = errors.New("link closed")
@@ -118,9 +121,29 @@ func (r *relayDir) emit(fr []byte) {
 	r.frames++
 }
 
+// seenFrame returns frame j of this direction once it has arrived (bounded wait: the other party
+// may not have written it yet; not getting it only means the plan is reported as not applied).
+func (r *relayDir) seenFrame(j int) []byte {
+	for try := 0; try < 300; try++ {
+		r.mtx.Lock()
+		if j >= 0 && j < len(r.seen) {
+			f := append([]byte{}, r.seen[j]...)
+			r.mtx.Unlock()
+			return f
+		}
+		r.mtx.Unlock()
+		if j < 0 {
+			return nil
+		}
+		time.Sleep(time.Millisecond)
+	}
+	return nil
+}
+
 func (r *relayDir) frame(fr []byte) {
 	k := r.idx
 	r.idx++
+	r.seen = append(r.seen, append([]byte{}, fr...))
 	t := r.plan
 	if t == nil || t.Kind == "eph-flip" {
 		r.emit(fr)
@@ -153,6 +176,17 @@ func (r *relayDir) frame(fr []byte) {
 			r.emit(r.saved) // the genuine frame k+dist is withheld
 			r.applied = true
 			return
+		}
+		r.emit(fr)
+	case "reflect":
+		// the reader is handed one of its OWN sealed frames (taken from the other direction) in the
+		// place of the sender's frame k
+		if k == t.Frame && r.peer != nil {
+			if own := r.peer.seenFrame(k + t.Dist); own != nil {
+				r.emit(own)
+				r.applied = true
+				return
+			}
 		}
 		r.emit(fr)
 	case "swap":
@@ -232,6 +266,7 @@ func newRelayedPair(planAB, planBA *tamper) (a, b *endConn, ab, ba *relayDir) {
 	qa, qb := newQueue(), newQueue()
 	ab = &relayDir{out: qb, plan: planAB}
 	ba = &relayDir{out: qa, plan: planBA}
+	ab.peer, ba.peer = ba, ab
 	a = &endConn{in: qa, out: ab}
 	b = &endConn{in: qb, out: ba}
 	return
